@@ -254,6 +254,19 @@ fn gen_object(rng: &mut Rng, cx: &mut Ctx, depth: u32, lo: usize, hi: usize) -> 
             required.push(json!(p));
         }
     }
+    // rarely, two sibling properties carry inline objects with the SAME title and
+    // different content: typify keeps the first by name (in property-name order)
+    if cx.sw.inline && cx.sw.defaults == 0 && depth < 2 && props.len() >= 2 && rng.chance(1, 8) {
+        cx.titles += 1;
+        let title = format!("{}T{}", cx.prefix, cx.titles);
+        let keys: Vec<String> = props.keys().take(2).cloned().collect();
+        for (i, k) in keys.iter().enumerate() {
+            props.insert(
+                k.clone(),
+                json!({"type": "object", "title": title, "properties": {format!("m{i}"): if i == 0 { json!({"type": "string"}) } else { json!({"type": "integer"}) }}}),
+            );
+        }
+    }
     let mut o = json!({"type": "object", "properties": props});
     if !required.is_empty() {
         o["required"] = Value::Array(required);
@@ -353,8 +366,16 @@ fn gen_tagged_enum(rng: &mut Rng, cx: &mut Ctx) -> Value {
             return json!({ "anyOf": branches });
         }
         _ => {
-            // untagged: alternatives of distinct JSON types
-            variants.push(json!({"type": "string"}));
+            // untagged: alternatives of distinct JSON types; the string alternative
+            // is sometimes an inline string enum (a named sub-type of the enum)
+            if cx.sw.enums && rng.chance(1, 2) {
+                let mut vals: Vec<&str> = ENUM_VALUES.to_vec();
+                rng.shuffle(&mut vals);
+                vals.truncate(rng.range(2, 3));
+                variants.push(json!({"type": "string", "enum": vals}));
+            } else {
+                variants.push(json!({"type": "string"}));
+            }
             variants.push(json!({"type": "integer"}));
             if !cx.targets.is_empty() && rng.chance(1, 2) {
                 let t = rng.pick(&cx.targets).clone();
@@ -825,10 +846,13 @@ fn gen_settings(rng: &mut Rng, sw: &Swarm, comps: &[Component]) -> SettingsDesc 
             let (name, _) = rng.pick(&all);
             s.patches.push(PatchDesc {
                 name: name.clone(),
-                rename: if rng.chance(2, 3) {
-                    Some(format!("{name}Renamed"))
-                } else {
-                    None
+                rename: match rng.below(6) {
+                    0 | 1 => Some(format!("{name}Renamed")),
+                    // spellings that are valid identifiers but not what a Pascal-case
+                    // normaliser would produce
+                    2 => Some(format!("HTTP{name}")),
+                    3 => Some(format!("{name}_V2")),
+                    _ => None,
                 },
                 // a per-type derive is the caller's promise that the members
                 // support it; only made when every type gets PartialEq anyway
